@@ -617,7 +617,7 @@ def run(repo, check):
     from sa.rules import c01, c12
     check.run_rule(rule_r1, repo, check.tier)
     check.run_rule(rule_r2, repo)
-    r3 = c01.rule_r7(repo)
+    r3 = check.call(c01.rule_r7, repo)
     r3.rule = 'C19.R3'
     for f in r3.findings:
         f.rule = 'C19.R3'
@@ -625,7 +625,7 @@ def run(repo, check):
     r3.findings = [f for f in r3.findings if f.key.startswith('BitReader.') or f.key.startswith('constants.')]
     r3.title = 'missing detection table and read_uint_or_none, widths 0..64'
     check.add(r3)
-    r4 = c12.rule_r2(repo)
+    r4 = check.call(c12.rule_r2, repo)
     r4.rule = 'C19.R4'
     for f in r4.findings:
         f.rule = 'C19.R4'
